@@ -1201,6 +1201,7 @@ func ruleCyclePathClosed(rule string) RuleFn {
 		}
 		// an append of path[0] to path
 		closes := false
+		var closing []ssa.Instruction
 		an.Instrs(fn, func(in ssa.Instruction) {
 			k, ok := in.(*ssa.Call)
 			if !ok {
@@ -1210,6 +1211,12 @@ func ruleCyclePathClosed(rule string) RuleFn {
 			if !ok || b.Name() != "append" || len(k.Common().Args) != 2 {
 				return
 			}
+			was := closes
+			defer func() {
+				if closes && !was {
+					closing = append(closing, in)
+				}
+			}()
 			if s := an.Norm(k.Common().Args[1]); regexp.MustCompile(`\[0\]`).MatchString(s) && !strings.Contains(s, "p:cycle[0]") {
 				closes = true
 			}
@@ -1239,7 +1246,85 @@ func ruleCyclePathClosed(rule string) RuleFn {
 				}
 			}
 		})
+		// polarity: the path is closed exactly when cycle[0] is NOT a constructor node - every way to the closing
+		// append crosses the failed-assertion edge of Lookup(cycle[0]).(*constructorNode) - and it is closed whenever
+		// cycle and path are non-empty (the closing append stays reachable with the "empty" edges deleted)
+		if closes && looksAtFirst {
+			notCtor := an.BoolEdges(fn, func(v ssa.Value) bool {
+				ex, ok := v.(*ssa.Extract)
+				if !ok || ex.Index != 1 {
+					return false
+				}
+				ta, ok := ex.Tuple.(*ssa.TypeAssert)
+				return ok && ta.CommaOk && an.IsDigNamed(ta.AssertedType, "constructorNode") && strings.Contains(an.Norm(ta.X), "p:cycle[0]")
+			}, false)
+			empty := an.EdgesWhere(fn, func(ft an.Fact) bool {
+				if os.Getenv("VERIF_DEBUG_FACTS") == "cycle-closed" {
+					fmt.Fprintln(os.Stderr, "fact:", ft.S)
+				}
+				return regexp.MustCompile(`^\(len\((p:cycle|φt\d+|[^()]*path[^()]*)\) (<= 0|== 0|< 1)\)$`).MatchString(ft.S)
+			})
+			for _, cl := range closing {
+				if hit, _ := an.PathTo(fn, nil, an.IsInstr(cl), an.NewGates().AddEdges(notCtor...)); hit != nil || len(notCtor) == 0 {
+					closes = false
+				}
+				if hit, _ := an.PathTo(fn, nil, an.IsInstr(cl), an.NewGates().AddEdges(empty...)); hit == nil {
+					closes = false
+				}
+			}
+		}
 		c.Check(closes && looksAtFirst, rule, "cycleDetectedError closes the path when the cycle was entered at a value-group node", "cycle[0] not a constructor -> path = append(path, path[0])", "the reported path can be an open chain: Provide(func(in{[]*X `group:\"g\"`}) *A) and then Provide(func(*A) *X, Group(\"g\")) is rejected with the path 'X depends on A' (two entries, not closed), while the same two Provides in the other order report 'X -> A -> X'", nil, nil)
+	}
+}
+
+// ruleTagChars (G-tag-chars, C15) - KNOWN FINDING.
+func ruleTagChars(rule string) RuleFn {
+	return func(c *an.Ctx) {
+		c.Rule(rule, "G-tag-chars: a restriction the options put on the characters of a name or group name (provideOptions.Validate rejects a backquote) holds for the name and group tags of result-object fields as well: the same test is made where a tag enters the IR (newResultObjectField, newResultGrouped, newResultObject) or where both routes meet (newResult). C15 demands that the same registrations are accepted through either encoding")
+		isBackquoteTest := func(k ssa.CallInstruction) bool {
+			nm := an.CalleeName(k)
+			if !strings.HasPrefix(nm, "strings.Contains") && !strings.HasPrefix(nm, "strings.Index") {
+				return false
+			}
+			for _, a := range k.Common().Args {
+				if kc, ok := a.(*ssa.Const); ok && kc.Value != nil && (kc.Value.String() == "96" || kc.Value.ExactString() == "\"`\"" || strings.Contains(kc.Value.ExactString(), "`")) {
+					return true
+				}
+			}
+			return false
+		}
+		count := func(names ...string) int {
+			n := 0
+			for _, nm := range names {
+				fn := c.P.Func(nm)
+				if fn == nil {
+					continue
+				}
+				c.See(fn)
+				an.Instrs(fn, func(in ssa.Instruction) {
+					if k, ok := in.(ssa.CallInstruction); ok && isBackquoteTest(k) {
+						n++
+					}
+				})
+			}
+			return n
+		}
+		inOptions := count("(*dig.provideOptions).Validate", "(dig.provideOptions).Validate")
+		if inOptions == 0 {
+			c.OKAt(rule, "result tags are held to the character restrictions of the Name and Group options", "the options restrict nothing", "-")
+			return
+		}
+		inTags := count("dig.newResultObjectField", "dig.newResultGrouped", "dig.newResultObject", "dig.newResult")
+		fn := c.P.Func("dig.newResultObjectField")
+		pos := "-"
+		if fn != nil {
+			pos = c.P.Pos(fn.Pos())
+		}
+		if inTags > 0 {
+			c.OKAt(rule, "result tags are held to the character restrictions of the Name and Group options", "backquote test on the tag route", pos)
+		} else {
+			c.BadAt(rule, "result tags are held to the character restrictions of the Name and Group options", "Provide(f, dig.Name(\"a`b\")) is rejected (\"names cannot contain backquotes\") while the same name in a tag - struct{ dig.Out; V T \"name:\\\"a`b\\\"\" } - is accepted, and likewise for dig.Group and the group tag: the two encodings do not accept the same registrations", pos, nil)
+		}
 	}
 }
 
